@@ -173,7 +173,7 @@ def g_op(rng, globs, wide=True):
         elif r < 0.93:
             v = K * 2048
         else:
-            v = rng.choice([0, -K, 1000, K + 1])
+            v = rng.choice([0, -K, 1000, K + 1, K // 2, 3 * K // 2])
         return {'k': 'setPieceSize', 'v': v}
     if c == 'setMin':
         r = rng.random()
@@ -184,7 +184,7 @@ def g_op(rng, globs, wide=True):
         elif r < 0.93:
             v = K * rng.choice([8, 2048]) if wide else K * 4
         else:
-            v = rng.choice([0, -K, 1000])
+            v = rng.choice([0, -K, 1000, K // 2, 3 * K // 2])
         return {'k': 'setMin', 'v': v}
     if c == 'setMax':
         r = rng.random()
@@ -195,7 +195,7 @@ def g_op(rng, globs, wide=True):
         elif r < 0.93:
             v = K * rng.choice([1, 2]) if wide else K * 8
         else:
-            v = rng.choice([0, -K, 1000])
+            v = rng.choice([0, -K, 1000, K // 2, 5 * K // 2])
         return {'k': 'setMax', 'v': v}
     if c == 'generate':
         return {'k': 'generate'}
@@ -232,9 +232,9 @@ ALPHABET = [
     {'k': 'globDel', 'inc': False, 'i': 0},
     {'k': 'setName', 'n': 'Foo'}, {'k': 'setName', 'n': None},
     {'k': 'setPieceSize', 'v': 3 * K}, {'k': 'setPieceSize', 'v': 4 * K}, {'k': 'setPieceSize', 'v': None},
-    {'k': 'setPieceSize', 'v': 1000}, {'k': 'setPieceSize', 'v': 2048 * K},
-    {'k': 'setMin', 'v': 4 * K}, {'k': 'setMin', 'v': 3 * K}, {'k': 'setMin', 'v': None}, {'k': 'setMin', 'v': 1000},
-    {'k': 'setMax', 'v': 2 * K}, {'k': 'setMax', 'v': 3 * K}, {'k': 'setMax', 'v': None}, {'k': 'setMax', 'v': 2048 * K},
+    {'k': 'setPieceSize', 'v': 1000}, {'k': 'setPieceSize', 'v': 2048 * K}, {'k': 'setPieceSize', 'v': 5 * K // 2},
+    {'k': 'setMin', 'v': 4 * K}, {'k': 'setMin', 'v': 3 * K}, {'k': 'setMin', 'v': None}, {'k': 'setMin', 'v': 1000}, {'k': 'setMin', 'v': 3 * K // 2},
+    {'k': 'setMax', 'v': 2 * K}, {'k': 'setMax', 'v': 3 * K}, {'k': 'setMax', 'v': None}, {'k': 'setMax', 'v': 2048 * K}, {'k': 'setMax', 'v': 7 * K // 2},
     {'k': 'generate'}, {'k': 'setComment', 'c': 'x'},
 ]
 PREFIXES = [
@@ -370,6 +370,9 @@ def evaluate(ctx, drv, cases):
         if c.get('witness') and not reproduced:
             if c['witness'] not in ctx.not_reproduced:
                 ctx.not_reproduced.append(c['witness'])
+    # report the shortest failing history
+    ctx.violations.sort(key=lambda v: len(v['case'].get('ops', ())) if isinstance(v['case'], dict) else 0)
+    ctx.corr_breaks.sort(key=lambda v: len(v['case'].get('ops', ())) if isinstance(v['case'], dict) else 0)
 
 
 def calc_cases(ctx):
